@@ -140,9 +140,13 @@ impl Builtins {
                                 pos.clone(),
                             )
                         })?;
+                        // The file is being imported from here on. Anything it
+                        // imports in turn that leads back to it is a cycle.
+                        let mut child_stack = import_stack.clone();
+                        child_stack.push(path.clone());
                         let mut vm =
                             VM::with_pointer(self.strict, op_pointer, base_path)
-                                .with_import_stack(import_stack.clone());
+                                .with_import_stack(child_stack);
                         vm.run(env)?;
                         let result = Rc::new(vm.symbols_to_tuple(true));
                         env.borrow_mut()
